@@ -129,3 +129,23 @@ VARIANTS += [
          old="                if state == TrialState.RUNNING:\n                    trial.datetime_start = datetime.now()\n",
          new="                if state == TrialState.RUNNING and trial.datetime_start is None:\n                    trial.datetime_start = datetime.now()\n"),
 ]
+
+VARIANTS += [
+    dict(id="c01-inmem-requeue-no-cursor-pullback", prop="C01", file=IM, expect="R01.16",
+         old="                self._prev_waiting_trial_number[study_id] = min(\n                    self._prev_waiting_trial_number[study_id], number\n                )\n",
+         new="                pass\n"),
+    dict(id="c01-inmem-requeue-cursor-raised", prop="C01", file=IM, expect="R01.16",
+         old="                self._prev_waiting_trial_number[study_id] = min(\n                    self._prev_waiting_trial_number[study_id], number\n                )\n",
+         new="                self._prev_waiting_trial_number[study_id] = number + 1\n"),
+    dict(id="c01-neutral-requeue-guarded-lowering", prop="C01", file=IM, expect=None,
+         old="                self._prev_waiting_trial_number[study_id] = min(\n                    self._prev_waiting_trial_number[study_id], number\n                )\n",
+         new="                if number < self._prev_waiting_trial_number[study_id]:\n                    self._prev_waiting_trial_number[study_id] = number\n"),
+    dict(id="c01-rdb-param-bare-insert", prop="C01", file=RDB, expect="R01.12",
+         old="        if trial_param is None:\n            trial_param = models.TrialParamModel(\n                trial_id=trial_id,\n                param_name=param_name,\n                param_value=param_value_internal,\n                distribution_json=distributions.distribution_to_json(distribution),\n            )\n            trial_param.check_and_add(session, trial.study_id)\n        else:",
+         new="        if True:\n            trial_param = models.TrialParamModel(\n                trial_id=trial_id,\n                param_name=param_name,\n                param_value=param_value_internal,\n                distribution_json=distributions.distribution_to_json(distribution),\n            )\n            trial_param.check_and_add(session, trial.study_id)\n        else:"),
+    dict(id="c01-rdb-param-update-forgets-distribution", prop="C01", file=RDB, expect="R01.12",
+         old="            trial_param.param_value = param_value_internal\n            trial_param.distribution_json = distributions.distribution_to_json(distribution)\n",
+         new="            trial_param.param_value = param_value_internal\n"),
+    dict(id="c01-rdb-template-shallow-copy", prop="C01", file=RDB, expect="R01.5",
+         old="                frozen = copy.deepcopy(template_trial)\n", new="                frozen = copy.copy(template_trial)\n"),
+]
